@@ -167,8 +167,7 @@ theorem C04_history_status_path (env : Env) (t : TxId) (is : List Ibtp) (l : Led
       simp only
       obtain ⟨ck, hck⟩ := handleIBTP_ok_checked hh
       have hd' : OrderedDst env r.1 t.to := by
-        obtain ⟨h1, h2, h3, h4⟩ := hd
-        exact ⟨h1, h2, h3, fun sv hsv => h4 sv (by rw [← handleIBTP_svc_frame hh]; exact hsv)⟩
+        exact hd.mono (fun c sid => handleIBTP_svc_frame hh c sid)
       have hcnt := handleIBTP_reqCounter hck hh t.frm t.to
       have hb' : t.index ≤ reqCounter r.1 t.frm t.to := by
         rw [hcnt]; split <;> omega
@@ -290,8 +289,7 @@ theorem C04_tx_final_stays (env : Env) (l : Led) (tx : Tx) (inv : Option String)
     | ibtp s i p env' r _ _ _ _ h5 h6 => rw [h6, handleIBTP_svc_frame h5]; rfl
     | bvm s c' m args r _ h2 h3 => rw [h3, applyBvm_frame h2 _ (by intro x e; cases e)]; rfl
   refine ⟨?_, ?_, ?_⟩
-  · obtain ⟨h1, h2, h3, h4⟩ := hd
-    exact ⟨h1, h2, h3, fun sv hsv => h4 sv (by rw [← hsvc]; exact hsv)⟩
+  · exact hd.mono hsvc
   · rcases C02_tx_counter_step env l tx inv t.frm t.to hd hnd with h | ⟨h, _⟩ <;> omega
   · cases applyTx_effect env l tx inv with
     | nothing h => rw [recStatus_congr (h _)]; exact hs
@@ -310,8 +308,7 @@ theorem C04_tx_final_stays (env : Env) (l : Led) (tx : Tx) (inv : Option String)
           · exact hnn
           · unfold recStatus at hs0; rw [hnn] at hs0; cases hs0
         have hd' : OrderedDst env' (txStart l) t.to := by
-          obtain ⟨a1, a2, a3, a4⟩ := hd
-          exact orderedDst_env h2 h3 ⟨a1, a2, a3, fun sv hsv => a4 sv hsv⟩
+          exact orderedDst_env h2 h3 (hd.mono (fun _ _ => rfl))
         have hdst : ck.dst = t.to := by rw [ht]
         have hsrc : ck.src = t.frm := by rw [ht]
         have hnb : ck.isBatch = false := orderedDst_not_batch (by rw [hdst]; exact hd') hck hreq hn
@@ -392,11 +389,9 @@ theorem C04_block_final_stays (cfg : Cfg) (n : Node) (txs : List (Tx × Bool)) (
       (setTimeoutRollback (setTimeoutList cfg A.led (n.height + 1) (txs.map (·.1)) A.rcpts) (n.height + 1)).getS k :=
     fun k => getS_of_store (finalise_store _) k
   refine ⟨?_, ?_, ?_⟩
-  · obtain ⟨a1, a2, a3, a4⟩ := o1
-    refine ⟨a1, a2, a3, fun sv hsv => a4 sv ?_⟩
+  · refine o1.mono (fun c sid => ?_)
     rw [hfin, setTimeoutRollback_frame _ _ _ (by intro x e; cases e) (by intro x e; cases e),
-      setTimeoutList_getS _ _ _ _ _ _ (by intro x e; cases e)] at hsv
-    exact hsv
+      setTimeoutList_getS _ _ _ _ _ _ (by intro x e; cases e)]
   · have := C02_timeout_steps_keep_counters cfg A.led (n.height + 1) (txs.map (·.1)) A.rcpts t.frm t.to
     rw [reqCounter_congr (fun x => hfin _) t.frm t.to, this]
     exact o2
@@ -487,5 +482,32 @@ example :
     let l : Led := { store := [(.txRec id, .trec { height := 9, status := .beginRollback })] }
     (tmBeginInter l 10 id 3 .beginFailure false).toOption.isNone = true ∧
     txFsmStep ({ height := 0, status := .begin } : Rec).status (noticeEvent .beginFailure) = some .failure := by decide
+
+open Bxh.Props.C02 in
+/-- the history theorems cover pairs whose destination lives on another BitXHub (`OrderedDst` holds of every remote destination):
+instance of `C04_history_final_stays` for a record ended by the notice -/
+theorem C04_history_final_stays_remote (env : Env) (t : TxId) (is : List Ibtp) (l : Led) (st : Status)
+    (hrem : isLocal env t.to = false) (hb : t.index ≤ reqCounter l t.frm t.to) (hs : recStatus l t = some st)
+    (hf : st.isFinal = true) : recStatus (runIbtps env l is) t = some st :=
+  C04_history_final_stays env t is l st (Or.inl hrem) hb hs hf
+
+open Bxh.Props.C02 in
+/-- non-vacuity (hub 9999 registered): request 1 to a service over there is accepted (BEGIN), the request handed back with the
+begin-failure notice ends it (FAILURE), and a second notice, a rollback notice, the other hub's success receipt and a replay of
+the request leave FAILURE in place; a notice for a request never made begins an ordinary transaction -/
+example :
+    let svc : Svc := { ordered := true, blacklist := [], available := true }
+    let l : Led := { store := [(.svc "c1" "s1", .svc svc)] }
+    let env : Env := { cfg := { hubs := ["9999"] }, cache := [], height := 12, txIndex := 0 }
+    let s11 : SvcId := { bxh := "1356", chain := "c1", sid := "s1" }
+    let r51 : SvcId := { bxh := "9999", chain := "c5", sid := "s1" }
+    let m (n : Nat) (ty : IType) (x : Ext) : Ibtp := { frm := some s11, to := some r51, index := n, typ := ty, timeout := 3, group := none, ext := x }
+    let t : TxId := { frm := s11, to := r51, index := 1 }
+    recStatus (runIbtps env l [m 1 .interchain .none]) t = some .begin ∧
+    recStatus (runIbtps env l [m 1 .interchain .none, m 1 .interchain .beginFailure]) t = some .failure ∧
+    recStatus (runIbtps env l [m 1 .interchain .none, m 1 .interchain .beginFailure, m 1 .interchain .beginFailure,
+      m 1 .interchain .beginRollback, m 1 .receiptSuccess .none, m 1 .interchain .none]) t = some .failure ∧
+    recStatus (runIbtps env l [m 1 .interchain .beginRollback]) t = some .begin := by
+  decide
 
 end Bxh.Props.C04
